@@ -129,6 +129,7 @@ def run(ctx):
         probes = ([k for k in pk] if objkeys else []) + ([v for v in pv] if objvals else [])
         base = {id(o): sys.getrefcount(o) for o in probes}
         multi = False
+        ctx.progress({"scenario": "random history with per-call reference accounting", "family": fn, "kind": kind, "sizes": [ml, mi], "history_number": it})
         with sizes([f.cls("BTree", "C"), f.cls("TreeSet", "C")], ml, mi):
             t = cls()
             alive = []            # iterators / sequences kept alive on purpose
@@ -272,6 +273,7 @@ def run(ctx):
                     ctx.oracle_failure("C:%s:%s" % (kind, bad[0]), "%s%s: %s: a probe's reference count is baseline%+d" % (fn, kind, bad[0], bad[1]),
                                        {"family": fn, "kind": kind, "sizes": [ml, mi]})
         ctx.count((fn, kind, ml, mi, it), nontrivial=multi or kind in ("Bucket", "Set"))
+    extra_scenarios(ctx, rng)
     # ---- correspondence with Model/Refs.v: leaf histories, final reference-count deltas
     terms = []
     for it in range(ctx.n(300, 6000)):
@@ -337,6 +339,178 @@ def run(ctx):
     ctx.cov["operations"] = opcount
     ctx.traces = ctx.evaluations
     ctx.sample({"note": "per-call comparison of sys.getrefcount deltas with the number of slots holding each probe"})
+
+
+def all_nodes(t):
+    """every persistent node object of a tree (root, interior nodes, leaves)"""
+    out = [t]
+    st = t.__getstate__()
+    if st is None:
+        return out
+    if len(st) == 1:
+        return out + [t._firstbucket]
+    for c in st[0][0::2]:
+        out += all_nodes(c) if type(c) is type(t) else [c]
+    return out
+
+
+def extra_scenarios(ctx, rng):
+    """(A) an iterator whose current entry is deleted under it; (B) conflict merges that are refused, every reason;
+    (C) read-only range queries must not change the reference count of any node"""
+    f = fam("OO")
+    nA = nB = nC = 0
+    # ---------------- (A)
+    for it in range(ctx.n(120, 3000)):
+        kind = rng.choice(["BTree", "TreeSet", "Bucket", "Set"])
+        setlike = kind in ("TreeSet", "Set")
+        cls = f.cls(kind, "C")
+        n = rng.randint(1, 9)
+        pk = [RK(i) for i in range(n)]
+        pv = [RV(i % 3) for i in range(n)]
+        base = [sys.getrefcount(o) for o in pk + pv]
+        with sizes([f.cls("BTree", "C"), f.cls("TreeSet", "C")], *rng.choice([(4, 4), (3, 3), (2, 3)])):
+            t = cls()
+            for k, v in zip(pk, pv):
+                t.add(k) if setlike else t.__setitem__(k, v)
+            itr = rng.choice([iter, (lambda x: x.iterkeys()) if not setlike else iter, (lambda x: x.iteritems()) if not setlike else iter,
+                              (lambda x: x.itervalues()) if not setlike else iter])(t)
+            consumed = rng.randint(1, n)
+            ctx.progress({"scenario": "iterate-then-delete", "kind": kind, "entries": n, "iterator_steps": consumed})
+            got = None
+            try:
+                for _ in range(consumed):
+                    got = next(itr)
+            except StopIteration:
+                pass
+                        # delete entries around the cursor: the ones just passed, the one it is parked on, the one after
+            victims = [vi for vi in (consumed - 2, consumed - 1, consumed, consumed + 1) if 0 <= vi < n and rng.random() < 0.5] or [min(consumed, n - 1)]
+            for vi in victims:
+                try:
+                    t.remove(RK(vi)) if setlike else t.__delitem__(RK(vi))
+                except KeyError:
+                    pass
+            bad = None
+            try:
+                x = next(itr)
+                live_keys = {k.n for k in t}
+                live_vals = set() if setlike else {id(v) for v in t.values()}
+                xs = x if isinstance(x, tuple) else (x,)
+                for y in xs:
+                    if isinstance(y, RK) and y.n not in live_keys:
+                        bad = "iterator-yielded-a-removed-key"
+                    if isinstance(y, RV) and id(y) not in live_vals:
+                        bad = "iterator-yielded-a-removed-value"
+                del x, xs
+            except (StopIteration, RuntimeError):
+                pass
+            got = itr = y = k = v = None
+            want = slots(t, setlike, True, True)
+            now = [sys.getrefcount(o) for o in pk + pv]          # measured exactly like 'base'
+            exp = [want.get(id(o), 0) for o in pk + pv]
+            for a, b, w in zip(now, base, exp):
+                if bad is None and a - b != w:
+                    bad = "refcount-off-by-%+d" % (a - b - w)
+            nA += 1
+            ctx.count(("iterdel", kind, n, consumed, tuple(victims)))
+            if bad:
+                ctx.oracle_failure("C:%s:iterate-then-delete:%s" % (kind, bad.split("-by-")[0]), "OO%s with %d entries: %d iterator steps, then the entries %r are deleted, then next(): %s" % (kind, n, consumed, victims, bad),
+                                   {"kind": kind, "n": n, "consumed": consumed, "victims": victims})
+            del t
+    # ---------------- (B)
+    for kind in ("Bucket", "Set"):
+        setlike = kind == "Set"
+        cls = f.cls(kind, "C")
+        edits = [("del", 1), ("del", 2), ("del", 3), ("chg", 1), ("chg", 2), ("chg", 3), ("ins", 0), ("ins", 4), ("ins", 5), ("nop", 0), ("delall", 0)]
+        if setlike:
+            edits = [e for e in edits if e[0] != "chg"]
+        for e1 in edits:
+            for e2 in edits:
+                pk = [RK(i) for i in range(6)]
+                pv = [RV(i) for i in range(8)]
+                base = [sys.getrefcount(o) for o in pk + pv]
+
+                def state(edit):
+                    b = cls()
+                    for i in (1, 2, 3):
+                        b.add(pk[i]) if setlike else b.__setitem__(pk[i], pv[i])
+                    if edit[0] == "del":
+                        b.remove(pk[edit[1]]) if setlike else b.__delitem__(pk[edit[1]])
+                    elif edit[0] == "chg":
+                        b[pk[edit[1]]] = pv[edit[1] + 4]
+                    elif edit[0] == "ins":
+                        b.add(pk[edit[1]]) if setlike else b.__setitem__(pk[edit[1]], pv[edit[1]])
+                    elif edit[0] == "delall":
+                        b.clear()
+                    return b.__getstate__()
+                s0, s1, s2 = state(("nop", 0)), state(e1), state(e2)
+                outcome = "merged"
+                try:
+                    r = cls()._p_resolveConflict(s0, s1, s2)
+                    del r
+                except Exception as e:  # noqa
+                    outcome = type(e).__name__
+                    del e
+                del s0, s1, s2
+                gc.collect()
+                now = [sys.getrefcount(o) for o in pk + pv]          # measured exactly like 'base'
+                off = [a - b for a, b in zip(now, base)]
+                nB += 1
+                ctx.count(("mergeref", kind, e1, e2))
+                if any(off):
+                    ctx.oracle_failure("C:%s:conflict-merge:leak" % kind, "OO%s: resolving original [1,2,3] against %r and %r (%s): %d probe object(s) keep %r extra reference(s) after everything was dropped" % (
+                        kind, e1, e2, outcome, sum(1 for x in off if x), sorted(set(x for x in off if x))), {"kind": kind, "e1": e1, "e2": e2})
+    # ---------------- (C)
+    for it in range(ctx.n(60, 1500)):
+        kind = rng.choice(["BTree", "TreeSet"])
+        setlike = kind == "TreeSet"
+        cls = f.cls(kind, "C")
+        ml, mi = rng.choice([(2, 2), (2, 3), (3, 3), (1, 2)])
+        with sizes([f.cls("BTree", "C"), f.cls("TreeSet", "C")], ml, mi):
+            t = cls()
+            keys = rng.sample(range(0, 60, 2), rng.randint(2, 14))
+            for k in keys:
+                t.add(RK(k)) if setlike else t.__setitem__(RK(k), k)
+            for k in rng.sample(keys, rng.randint(0, len(keys) // 2)):
+                t.remove(RK(k)) if setlike else t.__delitem__(RK(k))
+            if len(t) == 0:
+                continue
+            nodes = all_nodes(t)
+            present = sorted(k.n for k in t)
+            ctx.progress({"scenario": "read-only queries (all bound pairs x flags) with node reference counts audited", "kind": kind, "sizes": [ml, mi], "inserted": keys, "present": present})
+            base = [sys.getrefcount(o) for o in nodes]
+            bounds = [None, present[0], present[-1], present[len(present) // 2], present[0] - 1, present[-1] + 1, present[-1] - 1]
+            bad = None
+            for lo in bounds:
+                for hi in bounds:
+                    for exmin in (False, True):
+                        for exmax in (False, True):
+                            try:
+                                r = t.keys(None if lo is None else RK(lo), None if hi is None else RK(hi), exmin, exmax)
+                                [x for x in r]
+                                len(r)
+                                del r
+                            except Exception as e:  # noqa
+                                del e
+                            nC += 1
+                            now = [sys.getrefcount(o) for o in nodes]
+                            if now != base and bad is None:
+                                d = [(type(o).__name__, a - b) for o, a, b in zip(nodes, now, base) if a != b]
+                                bad = "keys(%r, %r, excludemin=%r, excludemax=%r) changed node reference counts: %r" % (lo, hi, exmin, exmax, d[:4])
+            for q in (lambda: t.minKey(), lambda: t.maxKey(), lambda: t.minKey(RK(present[0] + 1)), lambda: t.maxKey(RK(present[-1] - 1)), lambda: [x for x in t], lambda: len(t)):
+                try:
+                    q()
+                except Exception as e:  # noqa
+                    del e
+                now = [sys.getrefcount(o) for o in nodes]
+                if now != base and bad is None:
+                    bad = "a read-only query changed node reference counts"
+            ctx.count(("noderef", kind, ml, mi, tuple(keys)))
+            if bad:
+                ctx.oracle_failure("C:%s:read-only-query:node-refcount-changed" % kind, "OO%s sizes=(%d,%d) keys %r: %s" % (kind, ml, mi, present, bad), {"kind": kind, "sizes": [ml, mi], "keys": present})
+            del nodes, t
+    ctx.cov["iterate_then_delete_cases"] = nA
+    ctx.cov["refused_and_successful_merges_audited"] = nB
+    ctx.cov["read_only_queries_audited_for_node_refcounts"] = nC
 
 
 def replay(ctx, data):
